@@ -23,20 +23,22 @@ fn representative(i: usize) -> EncCall {
 }
 
 impl Prop for C04 {
-    type Case = EncCase;
+    type Case = PktCase;
     fn id(&self) -> &'static str {
         "C04"
     }
     fn rule(&self) -> String {
-        "generated: every encoder x full-range arguments x 7-bit source/destination pairs, vendor/SPDM/trait bodies from empty to beyond the limit (up to 300 bytes, i.e. byte counts up to ~306); thorough tier also enumerates all 128x128 address pairs for four representative encoders. checks b0=dst<<1, b1=0x0F, b2=len-4, b3=src<<1|1, len=b2+4, get_length(prefix k)=len for every k in 3..=len, and that an oversize message is not returned as Ok. non-trivial = encoder returned Ok, or the message is oversize; distinct by hash of (environment, call)".into()
+        "generated: responses produced by process_packet for forged requests, and every encoder x full-range arguments x 7-bit source/destination pairs, vendor/SPDM/trait bodies from empty to beyond the limit (up to 300 bytes, i.e. byte counts up to ~306); thorough tier also enumerates all 128x128 address pairs for four representative encoders. checks b0=dst<<1, b1=0x0F, b2=len-4, b3=src<<1|1, len=b2+4, get_length(prefix k)=len for every k in 3..=len, and that an oversize message is not returned as Ok. non-trivial = encoder returned Ok, or the message is oversize; distinct by hash of (environment, call)".into()
     }
     fn assumptions(&self) -> Vec<String> {
         vec!["7-bit addresses (bit 7 cannot be represented in the SMBus address byte)".into(), "how an oversize message is refused is C16's business; only an Ok result is a C04 violation".into()]
     }
-    fn strategy(&self, _tier: Tier) -> BoxedStrategy<EncCase> {
-        (gen::enc_env(gen::addr7().boxed()), gen::enc_call(false, true, true))
-            .prop_map(|(env, call)| EncCase { env, call })
-            .boxed()
+    fn strategy(&self, _tier: Tier) -> BoxedStrategy<PktCase> {
+        prop_oneof![
+            5 => (gen::enc_env(gen::addr7().boxed()), gen::enc_call(false, true, true)).prop_map(|(env, call)| PktCase::Enc(EncCase { env, call })),
+            1 => gen::resp_case().prop_map(PktCase::Resp),
+        ]
+        .boxed()
     }
     fn budget(&self, tier: Tier) -> u64 {
         match tier {
@@ -45,9 +47,9 @@ impl Prop for C04 {
         }
     }
     fn required_labels(&self) -> Vec<&'static str> {
-        vec!["high_address", "oversize", "max_size", "ok"]
+        vec!["high_address", "oversize", "max_size", "ok", "process_packet_response"]
     }
-    fn enumerate(&self, tier: Tier, shard: usize, nshards: usize, f: &mut dyn FnMut(EncCase)) {
+    fn enumerate(&self, tier: Tier, shard: usize, nshards: usize, f: &mut dyn FnMut(PktCase)) {
         if tier != Tier::Thorough {
             return;
         }
@@ -57,7 +59,7 @@ impl Prop for C04 {
                     continue;
                 }
                 for dst in 0u8..128 {
-                    f(EncCase { env: EncEnv { addr: src, dest: dst, eid_req: 0, eid_resp: 0, eid_via_process: false }, call: representative(k) });
+                    f(PktCase::Enc(EncCase { env: EncEnv { addr: src, dest: dst, eid_req: 0, eid_resp: 0, eid_via_process: false, hist: vec![] }, call: representative(k) }));
                 }
             }
         }
@@ -65,34 +67,44 @@ impl Prop for C04 {
     fn enumerated_desc(&self, tier: Tier) -> Option<String> {
         (tier == Tier::Thorough).then(|| "all 128x128 (source, destination) 7-bit address pairs for 4 representative encoders (control request, control response, IANA vendor message, secured message): 65536 cases".to_string())
     }
-    fn run(&self, case: &EncCase) -> CaseResult {
+    fn run(&self, case: &PktCase) -> CaseResult {
         let mut r = CaseResult::default();
-        let env = &case.env;
-        let kind = case.call.kind();
-        let refenc = refmodel::ref_encode(&case.call, env.eid_resp);
-        let oversize = matches!(refenc, RefEnc::Refuse("message too large for the SMBus byte count"));
-        let (e, buf) = encode_in(env, &case.call, 640, |_| 0xEE);
-        if oversize {
-            r.nontrivial = true;
-            r.label("oversize");
-            if let Enc::Ok(n) = e {
-                r.fail(
-                    format!("C04:{}:oversize_encoded", kind),
-                    format!("a message needing byte count > 255 was encoded: returned len {} with byte count {:#04x}", n, buf[2]),
-                );
+        let (buf, len, src, dest, kind) = match case {
+            PktCase::Enc(case) => {
+                let env = &case.env;
+                let kind = case.call.kind();
+                let refenc = refmodel::ref_encode(&case.call, env.eid_resp);
+                let oversize = matches!(refenc, RefEnc::Refuse("message too large for the SMBus byte count"));
+                let (e, buf) = encode_in(env, &case.call, 640, |_| 0xEE);
+                if oversize {
+                    r.nontrivial = true;
+                    r.label("oversize");
+                    if let Enc::Ok(n) = e {
+                        r.fail(
+                            format!("C04:{}:oversize_encoded", kind),
+                            format!("a message needing byte count > 255 was encoded: returned len {} with byte count {:#04x}", n, buf[2]),
+                        );
+                    }
+                    return r;
+                }
+                r.label("ok");
+                if env.addr >= 0x40 || env.dest >= 0x40 {
+                    r.label("high_address");
+                }
+                if let RefEnc::Packet(p) = &refenc {
+                    if (255..=259).contains(&(p.body.len() + 10)) {
+                        r.label("max_size");
+                    }
+                }
+                let Enc::Ok(len) = e else { return r };
+                (buf, len, env.addr, env.dest, kind)
             }
-            return r;
-        }
-        r.label("ok");
-        if env.addr >= 0x40 || env.dest >= 0x40 {
-            r.label("high_address");
-        }
-        if let RefEnc::Packet(p) = &refenc {
-            if (255..=259).contains(&(p.body.len() + 10)) {
-                r.label("max_size");
+            PktCase::Resp(c) => {
+                r.label("process_packet_response");
+                let Some(p) = produce_response(c) else { return r };
+                (p.buf, p.len, p.src, p.dest & 0x7F, p.kind)
             }
-        }
-        let Enc::Ok(len) = e else { return r };
+        };
         r.nontrivial = true;
         if len < 4 || len > buf.len() {
             r.fail(format!("C04:{}:len", kind), format!("reported length {} is impossible", len));
@@ -103,10 +115,10 @@ impl Prop for C04 {
                 r.fail(format!("C04:{}:{}", kind, name), format!("{}: got {:#x}, want {:#x} (packet {})", name, got, want, hex(&buf[..len.min(24)])));
             }
         };
-        chk("dst_addr", buf[0] as u32, (env.dest as u32) << 1);
+        chk("dst_addr", buf[0] as u32, (dest as u32) << 1);
         chk("smbus_cmd", buf[1] as u32, 0x0F);
         chk("byte_count", buf[2] as u32, (len - 4) as u32);
-        chk("src_addr", buf[3] as u32, ((env.addr as u32) << 1) | 1);
+        chk("src_addr", buf[3] as u32, ((src as u32) << 1) | 1);
         // length probe on every prefix of at least three bytes
         let store = CtxStore::new(&CtxCfg::default_test());
         let ctx = store.ctx();
